@@ -18,6 +18,7 @@ type SExpr struct {
 	Name string
 	Args []*SExpr
 	Vars []SBinder
+	Pats [][]*SExpr // quantifier triggers: forall x T {t1, t2} {t3} :: body  (each group is one multi-pattern)
 	Src  string
 }
 
@@ -50,6 +51,9 @@ type FuncSpec struct {
 	Sets      []GhostSet // ghost assignments performed in the caller when the call returns
 	Ghosts    []GhostSet // ghost variables of the function with their entry values
 	GhostExit []GhostAssign // ghost field assignments performed at function exit
+	Lemmas    []NamedExpr   // "lemma name: expr" inside a func block: proved in the entry state of that function, without its requires; never assumed
+	CallSite  bool          // assumed contract of one external call site ("callsite" block)
+	PerExit   bool          // "perexit": ensures are checked at every return separately instead of on the merged exit state
 }
 
 // GhostAssign is "x.f = expr" for a ghost field f.
@@ -92,6 +96,7 @@ type PureFunc struct {
 	Body   *SExpr
 	Rec    bool
 	Pkg    string
+	Uninterp bool // "ghost func": uninterpreted (deterministic) function over the argument sorts
 }
 
 type SpecSet struct {
@@ -100,6 +105,7 @@ type SpecSet struct {
 	Types  map[string]*TypeSpec
 	Pures  map[string]*PureFunc // by pkg.name and by name
 	Lemmas map[string]*NamedExpr
+	CallSites map[string]*FuncSpec // "pkg.Func:callee#n" -> assumed contract of that external call site
 	Ghosts map[string]bool // package-level ghost variables declared with "ghostvar" (pkg.name), mathematical integers
 	Files  []string
 	Assumed []string // trusted contracts, scanned mechanically
@@ -108,7 +114,7 @@ type SpecSet struct {
 // LoadSpecs reads the //@ lines of every verif_contracts.go in loaded packages.
 func LoadSpecs(p *Program) (*SpecSet, error) {
 	ss := &SpecSet{Funcs: map[string]*FuncSpec{}, Loops: map[string]*LoopSpec{}, Types: map[string]*TypeSpec{},
-		Pures: map[string]*PureFunc{}, Lemmas: map[string]*NamedExpr{}, Ghosts: map[string]bool{}}
+		Pures: map[string]*PureFunc{}, Lemmas: map[string]*NamedExpr{}, Ghosts: map[string]bool{}, CallSites: map[string]*FuncSpec{}}
 	// contract files of the loaded packages and of every repository package they import
 	seen := map[string]bool{}
 	var visit func(path string, imports map[string]*packages.Package)
@@ -160,7 +166,7 @@ func (ss *SpecSet) parseFile(pkg, file, text string) error {
 	}
 	var items []item
 	kw := map[string]bool{"func": true, "loop": true, "type": true, "pure": true, "lemma": true, "requires": true, "ensures": true,
-		"modifies": true, "decreases": true, "invariant": true, "inv": true, "owns": true, "mode": true, "trusted": true, "iface": true, "functype": true, "sets": true, "ghost": true, "ghost_exit": true, "ghostvar": true, "iteration": true}
+		"modifies": true, "decreases": true, "invariant": true, "inv": true, "owns": true, "mode": true, "trusted": true, "iface": true, "functype": true, "sets": true, "ghost": true, "ghost_exit": true, "ghostvar": true, "iteration": true, "callsite": true, "perexit": true}
 	for i, ln := range lines {
 		t := strings.TrimSpace(ln)
 		if !strings.HasPrefix(t, "//@") {
@@ -217,6 +223,24 @@ func (ss *SpecSet) parseFile(pkg, file, text string) error {
 			}
 			ss.Funcs[curF.Key] = curF
 			curL, curT = nil, nil
+		case "callsite":
+			// "callsite Func callee#n": assumed contract of the n-th call (source order of evaluation) of the
+			// external function callee (full name, e.g. sort.Slice) inside Func; locals of Func are
+			// visible, old() is the state before the call; modifies: x.f or elems(s)
+			fs := strings.Fields(rest)
+			if len(fs) != 2 {
+				return errf("callsite needs: Func callee#n")
+			}
+			key := funcSpecKey(pkg, fs[0]) + ":" + fs[1]
+			curF = &FuncSpec{Key: key, Line: it.line, File: file, Trusted: true, CallSite: true}
+			ss.CallSites[key] = curF
+			ss.Assumed = append(ss.Assumed, "callsite "+key)
+			curL, curT = nil, nil
+		case "perexit":
+			if curF == nil {
+				return errf("perexit outside func")
+			}
+			curF.PerExit = true
 		case "loop":
 			key := pkg + "." + strings.TrimSpace(rest)
 			curL = &LoopSpec{Key: key}
@@ -247,6 +271,10 @@ func (ss *SpecSet) parseFile(pkg, file, text string) error {
 			e, err := parse(rest[i+1:])
 			if err != nil {
 				return err
+			}
+			if curF != nil && !curF.CallSite {
+				curF.Lemmas = append(curF.Lemmas, NamedExpr{strings.TrimSpace(rest[:i]), e})
+				continue
 			}
 			ss.Lemmas[pkg+"."+strings.TrimSpace(rest[:i])] = &NamedExpr{strings.TrimSpace(rest[:i]), e}
 		case "requires", "ensures":
@@ -366,6 +394,18 @@ func (ss *SpecSet) parseFile(pkg, file, text string) error {
 			}
 			curF.GhostExit = append(curF.GhostExit, GhostAssign{tgt, e})
 		case "sets", "ghost":
+			if first == "ghost" && strings.HasPrefix(rest, "func ") {
+				// "ghost func name(a T, b U) R": uninterpreted spec function (no body)
+				pf, err := parseGhostFunc(rest)
+				if err != nil {
+					return errf("%v", err)
+				}
+				pf.Pkg = pkg
+				ss.Pures[pkg+"."+pf.Name] = pf
+				ss.Pures[pf.Name] = pf
+				ss.Assumed = append(ss.Assumed, "ghost func "+pkg+"."+pf.Name+": uninterpreted total function of its arguments")
+				continue
+			}
 			if first == "ghost" && curT != nil && curF == nil {
 				fs := strings.Fields(rest)
 				if len(fs) != 2 {
@@ -443,6 +483,31 @@ func splitTop(s string, sep byte) []string {
 	}
 	out = append(out, strings.TrimSpace(s[last:]))
 	return out
+}
+
+// parseGhostFunc parses "func name(a T, b U) R" (after the leading "ghost").
+func parseGhostFunc(s string) (*PureFunc, error) {
+	s = strings.TrimSpace(strings.TrimPrefix(strings.TrimSpace(s), "func "))
+	i := strings.Index(s, "(")
+	j := strings.LastIndex(s, ")")
+	if i < 0 || j < i {
+		return nil, fmt.Errorf("malformed ghost func %q", s)
+	}
+	pf := &PureFunc{Name: strings.TrimSpace(s[:i]), Ret: strings.TrimSpace(s[j+1:]), Uninterp: true}
+	if pf.Ret == "" {
+		return nil, fmt.Errorf("ghost func %s needs a result type", pf.Name)
+	}
+	for _, p := range splitTop(s[i+1:j], ',') {
+		if p == "" {
+			continue
+		}
+		fs := strings.Fields(p)
+		if len(fs) != 2 {
+			return nil, fmt.Errorf("bad param %q", p)
+		}
+		pf.Params = append(pf.Params, SBinder{fs[0], fs[1]})
+	}
+	return pf, nil
 }
 
 // parsePure parses "func name(a T, b U) R = expr" (after the leading "pure").
@@ -609,6 +674,25 @@ func (p *sparser) parseExpr() (*SExpr, error) {
 				break
 			}
 		}
+		var pats [][]*SExpr
+		for p.cur().tok == token.LBRACE {
+			p.next()
+			var grp []*SExpr
+			for {
+				t, err := p.parseExpr()
+				if err != nil {
+					return nil, err
+				}
+				grp = append(grp, t)
+				if !p.accept(token.COMMA) {
+					break
+				}
+			}
+			if err := p.expect(token.RBRACE); err != nil {
+				return nil, err
+			}
+			pats = append(pats, grp)
+		}
 		if err := p.expect(token.COLON); err != nil {
 			return nil, err
 		}
@@ -619,7 +703,7 @@ func (p *sparser) parseExpr() (*SExpr, error) {
 		if err != nil {
 			return nil, err
 		}
-		return &SExpr{Op: q, Vars: bs, Args: []*SExpr{body}}, nil
+		return &SExpr{Op: q, Vars: bs, Pats: pats, Args: []*SExpr{body}}, nil
 	}
 	return p.parseIff()
 }
